@@ -1155,3 +1155,1187 @@ fn c22_split_check(case: &SplitCase, cx: &Cx) -> CheckResult {
   });
   Ok(())
 }
+
+// --------------------------------------------------------------------- C24
+
+#[derive(Clone, Copy, Debug, Serialize, Deserialize, PartialEq, Eq, Hash)]
+pub enum SellerKind {
+  Single,
+  Multi,
+  Runic,
+  Both,
+  Cardinal,
+}
+
+#[derive(Clone, Copy, Debug, Serialize, Deserialize, PartialEq, Eq, Hash)]
+pub enum SigKind {
+  Unsigned,
+  /// the witness the mock node's signer produces
+  Witness,
+  OtherWitness,
+  ScriptSig,
+  Both,
+}
+
+#[derive(Clone, Copy, Debug, Serialize, Deserialize, PartialEq, Eq, Hash)]
+pub enum PayKind {
+  Exact,
+  Less(u16),
+  More(u16),
+  Nothing,
+}
+
+#[derive(Clone, Copy, Debug, Serialize, Deserialize, PartialEq, Eq, Hash)]
+pub enum NamedKind {
+  Sellers,
+  LastOfSellers,
+  OtherInWallet,
+  Foreign,
+}
+
+#[derive(Clone, Debug, Serialize, Deserialize, PartialEq, Eq, Hash)]
+pub struct Trial {
+  pub sellers: Vec<SellerKind>,
+  pub seller_sig: SigKind,
+  pub seller_position: u8,
+  pub buyer_sigs: Vec<SigKind>,
+  pub price: u64,
+  pub pay: PayKind,
+  pub named: NamedKind,
+  pub amount_delta: i8,
+  pub extra_wallet_output: Option<u64>,
+  pub dry_run: bool,
+}
+
+#[derive(Clone, Debug, Serialize, Deserialize, PartialEq, Eq, Hash)]
+pub struct OfferCase {
+  pub inventory: InventorySpec,
+  pub trials: Vec<Trial>,
+  pub salt: u64,
+}
+
+fn offer_inventory() -> impl Strategy<Value = InventorySpec> {
+  let amounts = || prop_oneof![1u128..50, 1u128..100_000].prop_map(U128);
+  (
+    proptest::collection::vec(10_000u64..200_000, 2..=4),
+    proptest::collection::vec((10_000u64..200_000, 2u8..=3, any::<bool>()), 1..=2),
+    proptest::collection::vec((10_000u64..200_000, amounts()), 1..=2),
+    proptest::collection::vec((10_000u64..200_000, amounts()), 1..=2),
+    proptest::collection::vec(10_000u64..2_000_000, 1..=3),
+  )
+    .prop_map(|(singles, multis, runics, boths, cardinals)| {
+      let mut outputs = Vec::new();
+      for value in singles {
+        outputs.push(WalletOutSpec {
+          value,
+          inscriptions: 1,
+          spread: false,
+          runes: Vec::new(),
+        });
+      }
+      for (value, inscriptions, spread) in multis {
+        outputs.push(WalletOutSpec {
+          value,
+          inscriptions,
+          spread,
+          runes: Vec::new(),
+        });
+      }
+      for (value, amount) in runics {
+        outputs.push(WalletOutSpec {
+          value,
+          inscriptions: 0,
+          spread: false,
+          runes: vec![(0, amount)],
+        });
+      }
+      for (value, amount) in boths {
+        outputs.push(WalletOutSpec {
+          value,
+          inscriptions: 1,
+          spread: false,
+          runes: vec![(0, amount)],
+        });
+      }
+      for value in cardinals {
+        outputs.push(WalletOutSpec {
+          value,
+          inscriptions: 0,
+          spread: false,
+          runes: Vec::new(),
+        });
+      }
+      InventorySpec {
+        runes: vec![RuneSpec {
+          divisibility: 0,
+          premine: U128(10_000_000),
+          mint: None,
+          spacers: 0,
+        }],
+        outputs,
+        foreign_inscriptions: vec![20_000],
+      }
+    })
+}
+
+fn seller_kind() -> impl Strategy<Value = SellerKind> {
+  prop_oneof![
+    8 => Just(SellerKind::Single),
+    2 => Just(SellerKind::Multi),
+    2 => Just(SellerKind::Runic),
+    2 => Just(SellerKind::Both),
+    2 => Just(SellerKind::Cardinal),
+  ]
+}
+
+fn trial() -> impl Strategy<Value = Trial> {
+  let buyer_sig = prop_oneof![
+    12 => Just(SigKind::Witness),
+    2 => Just(SigKind::Unsigned),
+    1 => Just(SigKind::OtherWitness),
+    1 => Just(SigKind::ScriptSig),
+    1 => Just(SigKind::Both),
+  ];
+  (
+    prop_oneof![
+      10 => seller_kind().prop_map(|k| vec![k]),
+      1 => Just(Vec::new()),
+      2 => proptest::collection::vec(seller_kind(), 2..=3),
+    ],
+    prop_oneof![12 => Just(SigKind::Unsigned), 1 => Just(SigKind::Witness), 1 => Just(SigKind::ScriptSig)],
+    0u8..4,
+    proptest::collection::vec(buyer_sig, 0..=3),
+    prop_oneof![1000u64..1_000_000, Just(0u64), Just(1u64)],
+    prop_oneof![
+      12 => Just(PayKind::Exact),
+      1 => (1u16..1000).prop_map(PayKind::Less),
+      1 => (1u16..1000).prop_map(PayKind::More),
+      1 => Just(PayKind::Nothing),
+    ],
+    prop_oneof![
+      12 => Just(NamedKind::Sellers),
+      1 => Just(NamedKind::LastOfSellers),
+      1 => Just(NamedKind::OtherInWallet),
+      1 => Just(NamedKind::Foreign),
+    ],
+    prop_oneof![12 => Just(0i8), 1 => Just(1i8), 1 => Just(-1i8), 1 => any::<i8>()],
+    proptest::option::weighted(0.08, 330u64..100_000),
+    proptest::bool::weighted(0.2),
+  )
+    .prop_map(
+      |(sellers, seller_sig, seller_position, buyer_sigs, price, pay, named, amount_delta, extra_wallet_output, dry_run)| Trial {
+        sellers,
+        seller_sig,
+        seller_position,
+        buyer_sigs,
+        price,
+        pay,
+        named,
+        amount_delta,
+        extra_wallet_output,
+        dry_run,
+      },
+    )
+}
+
+fn offer_case(max_trials: usize) -> BoxedStrategy<OfferCase> {
+  (offer_inventory(), proptest::collection::vec(trial(), 1..=max_trials), any::<u64>())
+    .prop_map(|(inventory, trials, salt)| OfferCase { inventory, trials, salt })
+    .boxed()
+}
+
+fn apply_sig(input: &mut bitcoin::psbt::Input, kind: SigKind) {
+  let witness = |b: u8| bitcoin::Witness::from_slice(&[&[b; 64]]);
+  let script = || bitcoin::script::Builder::new().push_slice([7u8; 71]).into_script();
+  match kind {
+    SigKind::Unsigned => {}
+    SigKind::Witness => input.final_script_witness = Some(witness(0)),
+    SigKind::OtherWitness => input.final_script_witness = Some(witness(1)),
+    SigKind::ScriptSig => input.final_script_sig = Some(script()),
+    SigKind::Both => {
+      input.final_script_witness = Some(witness(0));
+      input.final_script_sig = Some(script());
+    }
+  }
+}
+
+fn c24_check(case: &OfferCase, cx: &Cx) -> CheckResult {
+  use bitcoin::{ScriptBuf, Sequence, TxIn, TxOut, Witness, absolute::LockTime, transaction::Version};
+  let mut env = WalletEnv::new(&index_config()).map_err(harness("env"))?;
+  let inventory = env.build_inventory(&case.inventory, case.salt).map_err(harness("inventory"))?;
+  for (n, trial) in case.trials.iter().enumerate() {
+    env.clear_locks();
+    let pre = env.snapshot().map_err(harness("snapshot"))?;
+    let wallet_utxos = env.wallet_utxos();
+    let pick = |kind: SellerKind, skip: &BTreeSet<OutPoint>| -> Option<OutPoint> {
+      pre
+        .iter()
+        .filter(|(o, _)| !skip.contains(o))
+        .find(|(_, s)| match kind {
+          SellerKind::Single => s.inscriptions.len() == 1 && s.runes.is_empty(),
+          SellerKind::Multi => s.inscriptions.len() > 1 && s.runes.is_empty(),
+          SellerKind::Runic => s.inscriptions.is_empty() && !s.runes.is_empty(),
+          SellerKind::Both => !s.inscriptions.is_empty() && !s.runes.is_empty(),
+          SellerKind::Cardinal => s.cardinal(),
+        })
+        .map(|(o, _)| *o)
+    };
+    let mut used = BTreeSet::new();
+    let mut seller_inputs = Vec::new();
+    for kind in &trial.sellers {
+      if let Some(outpoint) = pick(*kind, &used) {
+        used.insert(outpoint);
+        seller_inputs.push(outpoint);
+      }
+    }
+    // inputs: buyers (harness outputs) with the wallet's spliced in
+    let mut inputs: Vec<(OutPoint, SigKind, bool)> = Vec::new();
+    for sig in &trial.buyer_sigs {
+      let Ok(fund) = env.take_fund(1) else {
+        break;
+      };
+      inputs.push((fund.outpoint, *sig, false));
+    }
+    for (k, outpoint) in seller_inputs.iter().enumerate() {
+      let position = (usize::from(trial.seller_position) + k).min(inputs.len());
+      inputs.insert(position, (*outpoint, trial.seller_sig, true));
+    }
+    if inputs.is_empty() {
+      continue;
+    }
+    let postage: u64 = seller_inputs.first().map(|o| pre[o].value).unwrap_or(10_000);
+    let seller_address = env.wallet_address();
+    let mut outputs = vec![TxOut {
+      value: Amount::from_sat(postage),
+      script_pubkey: foreign_address(30).script_pubkey(),
+    }];
+    let paid = match trial.pay {
+      PayKind::Exact => Some(postage + trial.price),
+      PayKind::Less(d) => Some((postage + trial.price).saturating_sub(u64::from(d)).max(330)),
+      PayKind::More(d) => Some(postage + trial.price + u64::from(d)),
+      PayKind::Nothing => None,
+    };
+    if let Some(paid) = paid {
+      outputs.push(TxOut {
+        value: Amount::from_sat(paid),
+        script_pubkey: seller_address.script_pubkey(),
+      });
+    }
+    outputs.push(TxOut {
+      value: Amount::from_sat(50_000),
+      script_pubkey: foreign_address(31).script_pubkey(),
+    });
+    if let Some(value) = trial.extra_wallet_output {
+      outputs.push(TxOut {
+        value: Amount::from_sat(value),
+        script_pubkey: env.wallet_address().script_pubkey(),
+      });
+    }
+    let tx = Transaction {
+      version: Version(2),
+      lock_time: LockTime::ZERO,
+      input: inputs
+        .iter()
+        .map(|(outpoint, _, _)| TxIn {
+          previous_output: *outpoint,
+          script_sig: ScriptBuf::new(),
+          sequence: Sequence::ENABLE_RBF_NO_LOCKTIME,
+          witness: Witness::new(),
+        })
+        .collect(),
+      output: outputs,
+    };
+    let mut psbt = Psbt::from_unsigned_tx(tx.clone()).map_err(harness("psbt"))?;
+    for (i, (_, sig, _)) in inputs.iter().enumerate() {
+      apply_sig(&mut psbt.inputs[i], *sig);
+    }
+    // what is named on the command line
+    let sellers_inscriptions: Vec<ord::InscriptionId> = seller_inputs
+      .first()
+      .map(|o| pre[o].inscriptions.clone())
+      .unwrap_or_default();
+    let named = match trial.named {
+      NamedKind::Sellers => sellers_inscriptions.first().copied(),
+      NamedKind::LastOfSellers => sellers_inscriptions.last().copied(),
+      NamedKind::OtherInWallet => pre
+        .iter()
+        .filter(|(o, _)| !seller_inputs.contains(o))
+        .flat_map(|(_, s)| s.inscriptions.iter().copied())
+        .next(),
+      NamedKind::Foreign => inventory.foreign_inscriptions.first().map(|f| f.0),
+    }
+    .or_else(|| inventory.foreign_inscriptions.first().map(|f| f.0));
+    let Some(named) = named else {
+      continue;
+    };
+    // the balance change, computed here
+    let wallet_in: u64 = tx
+      .input
+      .iter()
+      .filter_map(|i| wallet_utxos.get(&i.previous_output))
+      .map(|o| o.value.to_sat())
+      .sum();
+    let wallet_out: u64 = tx
+      .output
+      .iter()
+      .filter(|o| env.is_wallet_script(&o.script_pubkey))
+      .map(|o| o.value.to_sat())
+      .sum();
+    let change = i128::from(wallet_out) - i128::from(wallet_in);
+    let amount_arg = (change.max(0) + i128::from(trial.amount_delta)).max(0) as u64;
+
+    // ---- the advertised-trade predicate, clause by clause
+    let wallet_inputs: Vec<usize> = tx
+      .input
+      .iter()
+      .enumerate()
+      .filter(|(_, i)| wallet_utxos.contains_key(&i.previous_output))
+      .map(|(i, _)| i)
+      .collect();
+    let mut failing: Vec<&'static str> = Vec::new();
+    if wallet_inputs.len() != 1 {
+      failing.push("wallet-inputs");
+    }
+    if let Some(&index) = wallet_inputs.first() {
+      let state = &pre[&tx.input[index].previous_output];
+      if state.inscriptions.len() != 1 {
+        failing.push("inscription-count");
+      } else if state.inscriptions[0] != named {
+        failing.push("named-inscription");
+      }
+      if !state.runes.is_empty() {
+        failing.push("runes");
+      }
+    }
+    if change != i128::from(amount_arg) {
+      failing.push("amount");
+    }
+    let mut ambiguous = false;
+    for (i, (_, sig, is_wallet)) in inputs.iter().enumerate() {
+      if wallet_inputs.first() == Some(&i) || (*is_wallet && wallet_inputs.len() > 1) {
+        continue;
+      }
+      match sig {
+        SigKind::Unsigned => failing.push("unsigned-other-input"),
+        SigKind::Both => ambiguous = true,
+        _ => {}
+      }
+    }
+    failing.dedup();
+
+    use base64::Engine;
+    let encoded = base64::engine::general_purpose::STANDARD.encode(psbt.serialize());
+    let mut args = vec![
+      "offer".to_string(),
+      "accept".to_string(),
+      "--amount".to_string(),
+      format!("{amount_arg}sat"),
+      "--inscription".to_string(),
+      named.to_string(),
+      "--psbt".to_string(),
+      encoded,
+    ];
+    if trial.dry_run {
+      args.push("--dry-run".into());
+    }
+    let before: BTreeSet<_> = env.mempool().iter().map(|t| t.compute_txid()).collect();
+    let arg_refs: Vec<&str> = args.iter().map(String::as_str).collect();
+    let output = env.wallet(&arg_refs, &[]).map_err(harness("ord wallet offer accept"))?;
+    let broadcast: Vec<Transaction> = env
+      .mempool()
+      .into_iter()
+      .filter(|t| !before.contains(&t.compute_txid()))
+      .collect();
+    let accepted = output.ok() || !broadcast.is_empty();
+    let describe = || {
+      format!(
+        "trial {n}: inputs {:?}, outputs {:?}, --amount {amount_arg}sat --inscription {named}{}; wallet input states {:?}",
+        inputs
+          .iter()
+          .map(|(o, s, w)| format!("{}{}:{:?}", if *w { "wallet " } else { "" }, o, s))
+          .collect::<Vec<_>>(),
+        tx.output
+          .iter()
+          .map(|o| format!("{}{}", if env.is_wallet_script(&o.script_pubkey) { "wallet " } else { "" }, o.value.to_sat()))
+          .collect::<Vec<_>>(),
+        if trial.dry_run { " --dry-run" } else { "" },
+        wallet_inputs.iter().map(|i| &pre[&tx.input[*i].previous_output]).collect::<Vec<_>>()
+      )
+    };
+    if accepted {
+      cx.label("accepted");
+      if !failing.is_empty() && !ambiguous {
+        return cx.fail(Fail::new(
+          format!("c24|accepted|{}", failing[0]),
+          format!("offer accepted although clause(s) {failing:?} fail; {}", describe()),
+        ));
+      }
+      if trial.dry_run && !broadcast.is_empty() {
+        return cx.fail(Fail::new(
+          "c24|dry-run-broadcast",
+          format!("offer accept --dry-run broadcast a transaction; {}", describe()),
+        ));
+      }
+      // signatures of the other inputs are those of the PSBT
+      for sent in &broadcast {
+        if sent.compute_txid() != tx.compute_txid() {
+          return cx.fail(Fail::new(
+            "c24|other-transaction",
+            format!("offer accept broadcast {} instead of the offered {}; {}", sent.compute_txid(), tx.compute_txid(), describe()),
+          ));
+        }
+        for (i, (_, sig, _)) in inputs.iter().enumerate() {
+          if wallet_inputs.first() == Some(&i) {
+            continue;
+          }
+          let mut expected = bitcoin::psbt::Input::default();
+          apply_sig(&mut expected, *sig);
+          let witness_same = sent.input[i].witness == expected.final_script_witness.clone().unwrap_or_default();
+          let script_same = sent.input[i].script_sig == expected.final_script_sig.clone().unwrap_or_default();
+          if !(witness_same && script_same) {
+            return cx.fail(Fail::new(
+              "c24|signature-changed",
+              format!("input {i} was broadcast with a different signature than the PSBT carried; {}", describe()),
+            ));
+          }
+        }
+      }
+      if failing.is_empty() {
+        cx.label("accepted-valid");
+        cx.nontrivial(fingerprint(&(case, n)));
+        cx.sample(3, || json!({"accepted": describe()}));
+      }
+    } else {
+      cx.label("rejected");
+      if failing.is_empty() && !ambiguous {
+        let all_mock_sigs = inputs.iter().all(|(_, s, w)| *w || *s == SigKind::Witness);
+        if all_mock_sigs && trial.seller_sig == SigKind::Unsigned {
+          cx.label("rejected-although-valid");
+        } else {
+          cx.label("rejected:signature-handling");
+        }
+      }
+      if failing.len() == 1 {
+        cx.label(&format!("rejected-only:{}", failing[0]));
+        cx.nontrivial(fingerprint(&(case, n)));
+        cx.sample(8, || json!({"rejected_for": failing[0], "stderr": output.stderr.lines().last().unwrap_or("")}));
+      }
+    }
+    env.mine(1).map_err(harness("mine"))?;
+  }
+  Ok(())
+}
+
+pub fn c24(s: &mut Session) -> Meta {
+  let t = s.tier();
+  s.run_part(
+    Part::new("offer-psbts", t.pick(120, 2000), move || offer_case(8), c24_check)
+      .shrink_iters(80)
+      .timeout(600),
+  );
+  Meta {
+    level: "exploration",
+    rule: "Each case builds a wallet on the mock node (outputs with exactly one inscription, with 2..3 inscriptions, with runes, with an inscription and runes, and cardinal ones) and presents 1..8 generated PSBTs to the real `ord wallet offer accept` (subprocess, live server). A PSBT starts from a well-formed offer (buyer inputs signed, one wallet input holding exactly the named inscription, the wallet paid postage + price, --amount = price) and is perturbed: zero, two or three wallet inputs; a wallet input with several inscriptions, runes, both, or none; another inscription named (a later one on the same output, one elsewhere in the wallet, a foreign one); payment short, over or missing, an extra output to the wallet, --amount off by one or more; buyer inputs unsigned, signed by script_sig, by a different witness, or both; the wallet's input already signed; any input order; --dry-run. Oracle: if the command exits 0 or a transaction reaches the mock mempool then every clause of the property holds by the harness' own computation from the PSBT, the mock node's UTXO set and the index's /output JSON (exactly one wallet input; it holds exactly the named inscription and no runes; wallet outputs minus wallet inputs equals --amount; every other input carries a final signature), the broadcast transaction is the offered one and its other inputs carry exactly the PSBT's signatures; --dry-run broadcasts nothing. Non-trivial = an accepted well-formed offer, or a rejected PSBT violating exactly one clause; distinct by (case, trial).",
+    assumptions: &[
+      "the mock node signs by writing a fixed 64-byte witness and its finalizepsbt discards existing signatures; buyer signatures equal to that witness survive, any other is (correctly) refused by ord after signing",
+      "inputs carrying both a final script_sig and a final witness are refused by ord as malformed and are not judged",
+    ],
+    required_labels: &[
+      "accepted-valid",
+      "rejected-only:wallet-inputs",
+      "rejected-only:inscription-count",
+      "rejected-only:named-inscription",
+      "rejected-only:runes",
+      "rejected-only:amount",
+      "rejected-only:unsigned-other-input",
+    ],
+  }
+}
+
+// --------------------------------------------------------------------- C21
+
+#[derive(Clone, Debug, Serialize, Deserialize, PartialEq, Eq, Hash)]
+pub struct EntrySpec {
+  pub body_len: u16,
+  pub ext: u8,
+  pub metadata: bool,
+  pub metaprotocol: bool,
+  pub delegate: bool,
+  pub file_with_delegate: bool,
+  pub destination: Option<u8>,
+}
+
+#[derive(Clone, Debug, Serialize, Deserialize, PartialEq, Eq, Hash)]
+pub struct EtchSpec {
+  pub divisibility: u8,
+  pub premine: U128,
+  pub terms: Option<(U128, U128, u8)>,
+  pub turbo: bool,
+  pub spacers: u32,
+}
+
+#[derive(Clone, Debug, Serialize, Deserialize, PartialEq, Eq, Hash)]
+pub struct BatchCase {
+  /// 0 separate-outputs, 1 shared-output, 2 same-sat, 3 satpoints
+  pub mode: u8,
+  pub entries: Vec<EntrySpec>,
+  pub parents: u8,
+  pub postage: Option<u64>,
+  /// same-sat only: 0 nothing, 1 explicit cardinal satpoint, 2 reinscribe an inscribed sat
+  pub same_sat_target: u8,
+  pub etching: Option<EtchSpec>,
+  pub fee_rate: u8,
+  pub commit_fee_rate: Option<u8>,
+  pub compress: bool,
+  pub dry_run: bool,
+  pub cardinals: Vec<u64>,
+  pub salt: u64,
+}
+
+fn batch_case() -> BoxedStrategy<BatchCase> {
+  let entry = (
+    0u16..600,
+    0u8..4,
+    proptest::bool::weighted(0.3),
+    proptest::bool::weighted(0.2),
+    proptest::bool::weighted(0.2),
+    any::<bool>(),
+    proptest::option::weighted(0.4, 40u8..44),
+  )
+    .prop_map(|(body_len, ext, metadata, metaprotocol, delegate, file_with_delegate, destination)| EntrySpec {
+      body_len,
+      ext,
+      metadata,
+      metaprotocol,
+      delegate,
+      file_with_delegate,
+      destination,
+    });
+  let etch = (
+    prop_oneof![Just(0u8), 1u8..=8, Just(38u8)],
+    prop_oneof![Just(0u128), 1u128..1000, 1000u128..1_000_000_000, Just(u64::MAX as u128)].prop_map(U128),
+    proptest::option::weighted(0.5, (prop_oneof![1u128..100, 1u128..1_000_000].prop_map(U128), (1u128..1000).prop_map(U128), 0u8..4)),
+    any::<bool>(),
+    prop_oneof![Just(0u32), 0u32..4096],
+  )
+    .prop_map(|(divisibility, premine, terms, turbo, spacers)| EtchSpec {
+      divisibility,
+      premine,
+      terms,
+      turbo,
+      spacers,
+    });
+  (
+    (
+      0u8..4,
+      proptest::collection::vec(entry, 1..=5),
+      prop_oneof![3 => Just(0u8), 2 => Just(1u8), 1 => Just(2u8)],
+      proptest::option::weighted(0.4, prop_oneof![330u64..1000, 1000u64..30_000]),
+      0u8..3,
+      proptest::option::weighted(0.3, etch),
+    ),
+    (
+      prop_oneof![Just(0u8), Just(1u8), 2u8..5],
+      proptest::option::weighted(0.2, 0u8..5),
+      proptest::bool::weighted(0.2),
+      proptest::bool::weighted(0.08),
+      proptest::collection::vec(prop_oneof![20_000u64..200_000, 200_000u64..5_000_000], 6..=9),
+      any::<u64>(),
+    ),
+  )
+    .prop_map(
+      |((mode, entries, parents, postage, same_sat_target, etching), (fee_rate, commit_fee_rate, compress, dry_run, cardinals, salt))| BatchCase {
+        mode,
+        entries,
+        parents,
+        postage,
+        same_sat_target,
+        etching,
+        fee_rate,
+        commit_fee_rate,
+        compress,
+        dry_run,
+        cardinals,
+        salt,
+      },
+    )
+    .boxed()
+}
+
+/// Runs `ord wallet batch`, mining the blocks a rune commitment needs.
+fn run_batch(env: &mut WalletEnv, args: &[&str], files: &[(&str, Vec<u8>)]) -> Result<(crate::walletenv::CliOutput, Vec<Transaction>), Fail> {
+  use std::{
+    io::Read,
+    sync::{Arc, Mutex},
+    time::{Duration, Instant},
+  };
+  let mut child = env.spawn_wallet(args, files).map_err(harness("spawn"))?;
+  let mut stdout = child.stdout.take().unwrap();
+  let mut stderr = child.stderr.take().unwrap();
+  let err_buffer = Arc::new(Mutex::new(Vec::<u8>::new()));
+  let out_thread = std::thread::spawn(move || {
+    let mut s = Vec::new();
+    let _ = stdout.read_to_end(&mut s);
+    s
+  });
+  let err_thread = {
+    let err_buffer = err_buffer.clone();
+    std::thread::spawn(move || {
+      let mut chunk = [0u8; 4096];
+      loop {
+        match stderr.read(&mut chunk) {
+          Ok(0) | Err(_) => break,
+          Ok(n) => err_buffer.lock().unwrap().extend_from_slice(&chunk[..n]),
+        }
+      }
+    })
+  };
+  let started = Instant::now();
+  let mut matured = false;
+  let mut seen: Vec<Transaction> = Vec::new();
+  let status = loop {
+    for tx in env.mempool() {
+      if !seen.iter().any(|t| t.compute_txid() == tx.compute_txid()) {
+        seen.push(tx);
+      }
+    }
+    if let Some(status) = child.try_wait().map_err(harness("wait"))? {
+      break status;
+    }
+    if !matured && String::from_utf8_lossy(&err_buffer.lock().unwrap()).contains("Waiting for rune") {
+      matured = true;
+      for tx in env.mempool() {
+        if !seen.iter().any(|t| t.compute_txid() == tx.compute_txid()) {
+          seen.push(tx);
+        }
+      }
+      env.mine(6).map_err(harness("mine"))?;
+    }
+    if started.elapsed() > Duration::from_secs(120) {
+      let _ = child.kill();
+      let _ = child.wait();
+      return Err(Fail::new("HARNESS-FAULT", "ord wallet batch did not finish within 120 s"));
+    }
+    std::thread::sleep(Duration::from_millis(2));
+  };
+  for tx in env.mempool() {
+    if !seen.iter().any(|t| t.compute_txid() == tx.compute_txid()) {
+      seen.push(tx);
+    }
+  }
+  let stdout = String::from_utf8_lossy(&out_thread.join().unwrap()).to_string();
+  let _ = err_thread.join();
+  let stderr = String::from_utf8_lossy(&err_buffer.lock().unwrap()).to_string();
+  Ok((
+    crate::walletenv::CliOutput {
+      code: status.code(),
+      stdout,
+      stderr,
+    },
+    seen,
+  ))
+}
+
+fn c21_check(case: &BatchCase, cx: &Cx) -> CheckResult {
+  use ord::wallet::batch;
+  let mut env = WalletEnv::new(&index_config()).map_err(harness("env"))?;
+  // the wallet: cardinals first (they sort anywhere by txid anyway), three
+  // single inscriptions usable as parents or reinscription targets, a
+  // doubly inscribed output, and runic ones
+  let mut outputs: Vec<WalletOutSpec> = case
+    .cardinals
+    .iter()
+    .map(|value| WalletOutSpec {
+      value: *value,
+      inscriptions: 0,
+      spread: false,
+      runes: Vec::new(),
+    })
+    .collect();
+  for value in [12_000u64, 33_000, 10_000] {
+    outputs.push(WalletOutSpec {
+      value,
+      inscriptions: 1,
+      spread: false,
+      runes: Vec::new(),
+    });
+  }
+  outputs.push(WalletOutSpec {
+    value: 9_000_000,
+    inscriptions: 2,
+    spread: true,
+    runes: Vec::new(),
+  });
+  for value in [8_000_000u64, 7_000_000] {
+    outputs.push(WalletOutSpec {
+      value,
+      inscriptions: 0,
+      spread: false,
+      runes: vec![(0, U128(1000))],
+    });
+  }
+  let spec = InventorySpec {
+    runes: vec![RuneSpec {
+      divisibility: 0,
+      premine: U128(1_000_000),
+      mint: None,
+      spacers: 0,
+    }],
+    outputs,
+    foreign_inscriptions: vec![20_000],
+  };
+  let inventory = env.build_inventory(&spec, case.salt).map_err(harness("inventory"))?;
+  let pre = env.snapshot().map_err(harness("snapshot"))?;
+  let singles: Vec<(OutPoint, ord::InscriptionId)> = pre
+    .iter()
+    .filter(|(_, s)| s.inscriptions.len() == 1 && s.runes.is_empty())
+    .map(|(o, s)| (*o, s.inscriptions[0]))
+    .collect();
+  let cardinals: Vec<(OutPoint, u64)> = pre.iter().filter(|(_, s)| s.cardinal()).map(|(o, s)| (*o, s.value)).collect();
+  let mode = case.mode % 4;
+  let mode_name = ["separate-outputs", "shared-output", "same-sat", "satpoints"][usize::from(mode)];
+
+  // ---- the batch file
+  let parents: Vec<(OutPoint, ord::InscriptionId)> = singles.iter().take(usize::from(case.parents)).copied().collect();
+  let mut yaml = format!("mode: {mode_name}\n");
+  if !parents.is_empty() {
+    yaml.push_str("parents:\n");
+    for (_, id) in &parents {
+      yaml.push_str(&format!("- {id}\n"));
+    }
+  }
+  if mode != 3 {
+    if let Some(postage) = case.postage {
+      yaml.push_str(&format!("postage: {postage}\n"));
+    }
+  }
+  let mut subject_outputs: BTreeSet<OutPoint> = parents.iter().map(|(o, _)| *o).collect();
+  let mut reinscribing = false;
+  if mode == 2 {
+    match case.same_sat_target {
+      1 => {
+        if let Some((outpoint, value)) = cardinals.last() {
+          yaml.push_str(&format!("satpoint: {}:{}\n", outpoint, (case.salt % 7).min(value.saturating_sub(1))));
+        }
+      }
+      2 => {
+        // reinscribe the last single that is not a parent
+        if let Some((outpoint, _)) = singles.iter().rev().find(|(o, _)| !subject_outputs.contains(o)) {
+          yaml.push_str(&format!("satpoint: {outpoint}:0\nreinscribe: true\n"));
+          subject_outputs.insert(*outpoint);
+          reinscribing = true;
+        }
+      }
+      _ => {}
+    }
+  }
+  let mut files: Vec<(String, Vec<u8>)> = Vec::new();
+  let delegate_target = inventory.foreign_inscriptions.first().map(|f| f.0);
+  let mut wanted_delegates: Vec<Option<ord::InscriptionId>> = Vec::new();
+  let mut wanted_bodies: Vec<Option<Vec<u8>>> = Vec::new();
+  let mut wanted_destinations: Vec<Option<bitcoin::ScriptBuf>> = Vec::new();
+  let mut satpoint_outputs: Vec<OutPoint> = Vec::new();
+  yaml.push_str("inscriptions:\n");
+  for (i, entry) in case.entries.iter().enumerate() {
+    let delegate = if entry.delegate { delegate_target } else { None };
+    let with_file = delegate.is_none() || entry.file_with_delegate;
+    let mut lines: Vec<String> = Vec::new();
+    if with_file {
+      let ext = ["txt", "json", "png", "html"][usize::from(entry.ext % 4)];
+      let name = format!("f{i}.{ext}");
+      let body: Vec<u8> = (0..entry.body_len).map(|k| b'a' + ((k as usize + i) % 26) as u8).collect();
+      lines.push(format!("file: {name}"));
+      files.push((name, body.clone()));
+      wanted_bodies.push(Some(body));
+    } else {
+      wanted_bodies.push(None);
+    }
+    if let Some(delegate) = delegate {
+      lines.push(format!("delegate: {delegate}"));
+    }
+    wanted_delegates.push(delegate);
+    if entry.metadata {
+      lines.push(format!("metadata:\n    title: entry {i}\n    n: {i}"));
+    }
+    if entry.metaprotocol {
+      lines.push(format!("metaprotocol: proto{i}"));
+    }
+    if mode == 0 || mode == 3 {
+      if let Some(k) = entry.destination {
+        let address = foreign_address(k);
+        lines.push(format!("destination: {address}"));
+        wanted_destinations.push(Some(address.script_pubkey()));
+      } else {
+        wanted_destinations.push(None);
+      }
+    } else {
+      wanted_destinations.push(None);
+    }
+    if mode == 3 {
+      // distinct cardinal outputs, taken from the end so that the planner's
+      // own choice of a commit input (the first cardinal) stays free
+      let Some((outpoint, _)) = cardinals.iter().rev().nth(i) else {
+        return Ok(());
+      };
+      if cardinals.len() < case.entries.len() + 2 {
+        return Ok(());
+      }
+      lines.push(format!("satpoint: {outpoint}:0"));
+      satpoint_outputs.push(*outpoint);
+    }
+    yaml.push_str(&format!("- {}\n", lines.join("\n  ")));
+  }
+  let mut etching_request = None;
+  if let Some(etch) = &case.etching {
+    let rune = Rune(crate::walletenv::rune_base() + u128::from(case.salt % 1_000_000) * 1000 + 777);
+    let spaced = ordinals::SpacedRune {
+      rune,
+      spacers: etch.spacers & ((1u32 << (rune.to_string().len() - 1)) - 1),
+    };
+    let premine = etch.premine.0;
+    let (mintable, terms_yaml, terms) = match &etch.terms {
+      Some((amount, cap, kind)) => {
+        let mut t = format!(
+          "  terms:\n    amount: '{}'\n    cap: {}\n",
+          decimal_string(amount.0, etch.divisibility),
+          cap.0
+        );
+        match kind % 4 {
+          1 => t.push_str("    offset:\n      start: 0\n      end: 1000\n"),
+          2 => t.push_str("    height:\n      start: 500\n      end: 10000\n"),
+          3 => t.push_str("    offset:\n      end: 100\n    height:\n      end: 5000\n"),
+          _ => {}
+        }
+        (amount.0.saturating_mul(cap.0), t, Some((amount.0, cap.0)))
+      }
+      None => (0, String::new(), None),
+    };
+    let supply = premine.saturating_add(mintable);
+    yaml.push_str(&format!(
+      "etching:\n  rune: {}\n  symbol: '$'\n  divisibility: {}\n  supply: '{}'\n  premine: '{}'\n  turbo: {}\n{}",
+      spaced,
+      etch.divisibility,
+      decimal_string(supply, etch.divisibility),
+      decimal_string(premine, etch.divisibility),
+      etch.turbo,
+      terms_yaml
+    ));
+    etching_request = Some((spaced, premine, etch.divisibility, terms, etch.turbo));
+  }
+
+  // ---- run it
+  let fee_rate = case.fee_rate.to_string();
+  let mut args: Vec<String> = vec!["batch".into(), "--fee-rate".into(), fee_rate, "--batch".into(), "batch.yaml".into()];
+  if let Some(rate) = case.commit_fee_rate {
+    args.push("--commit-fee-rate".into());
+    args.push(rate.to_string());
+  }
+  if case.compress {
+    args.push("--compress".into());
+  }
+  if case.dry_run {
+    args.push("--dry-run".into());
+  }
+  let mut file_refs: Vec<(&str, Vec<u8>)> = files.iter().map(|(n, b)| (n.as_str(), b.clone())).collect();
+  file_refs.push(("batch.yaml", yaml.clone().into_bytes()));
+  let arg_refs: Vec<&str> = args.iter().map(String::as_str).collect();
+  cx.label(&format!("mode:{mode_name}"));
+  let (output, seen) = run_batch(&mut env, &arg_refs, &file_refs)?;
+  if !output.ok() {
+    cx.label("rejected");
+    cx.label(&format!("rejected:{mode_name}"));
+    if std::env::var_os("ORDVERIF_DEBUG").is_some() {
+      eprintln!("[debug] batch rejected: {}\n{yaml}", output.stderr.lines().last().unwrap_or(""));
+    }
+    if output.stderr.contains("panicked at") {
+      cx.label("cli-panicked");
+    }
+    return Ok(());
+  }
+  let report: batch::Output = output.json().map_err(harness("batch output"))?;
+  let context = || format!("batch file:\n{yaml}\nord reported: {}", output.stdout.trim());
+  if case.dry_run {
+    cx.label("dry-run");
+    if !seen.is_empty() {
+      return cx.fail(Fail::new("c21|dry-run-broadcast", format!("--dry-run broadcast {} transaction(s); {}", seen.len(), context())));
+    }
+    return Ok(());
+  }
+  let commit_tx = seen.iter().find(|tx| tx.compute_txid() == report.commit).cloned();
+  let reveal_tx = seen.iter().find(|tx| tx.compute_txid() == report.reveal).cloned();
+  let (Some(commit_tx), Some(reveal_tx)) = (commit_tx, reveal_tx) else {
+    return cx.fail(Fail::new(
+      "c21|reported-tx-not-broadcast",
+      format!("commit {} / reveal {} reported but not seen in the mempool; {}", report.commit, report.reveal, context()),
+    ));
+  };
+  env.mine(1).map_err(harness("mine"))?;
+
+  // (c) the commit spends nothing inscribed or runic except the batch's own subject
+  for input in &commit_tx.input {
+    if let Some(state) = pre.get(&input.previous_output) {
+      if !state.cardinal() && !(reinscribing && subject_outputs.contains(&input.previous_output) && !parents.iter().any(|(o, _)| o == &input.previous_output)) {
+        return cx.fail(Fail::new(
+          format!("c21|commit-spends-noncardinal|{mode_name}"),
+          format!("commit {} spends {} holding {:?}; {}", report.commit, input.previous_output, state, context()),
+        ));
+      }
+    }
+  }
+
+  // (a) ids and locations
+  if report.inscriptions.len() != case.entries.len() {
+    return cx.fail(Fail::new(
+      "c21|count",
+      format!("{} inscriptions requested, {} reported; {}", case.entries.len(), report.inscriptions.len(), context()),
+    ));
+  }
+  for (i, info) in report.inscriptions.iter().enumerate() {
+    let path = format!("/inscription/{}", info.id);
+    let response = env.server.get(&path, None, true).map_err(harness("get inscription"))?;
+    if response.status != 200 {
+      return cx.fail(Fail::new(
+        format!("c21|reported-id-missing|{mode_name}"),
+        format!("reported inscription {} is not in the index after mining (status {}); {}", info.id, response.status, context()),
+      ));
+    }
+    let indexed: ord::api::Inscription = serde_json::from_slice(&response.body).map_err(harness("inscription json"))?;
+    if indexed.satpoint != info.location {
+      return cx.fail(Fail::new(
+        format!("c21|location|{mode_name}"),
+        format!("inscription {i} ({}) reported at {} but indexed at {}; {}", info.id, info.location, indexed.satpoint, context()),
+      ));
+    }
+    let reported_destination = info.destination.clone().assume_checked();
+    let located_script = env.tx_out(&indexed.satpoint.outpoint).map(|o| o.script_pubkey);
+    if located_script.as_ref() != Some(&reported_destination.script_pubkey()) {
+      return cx.fail(Fail::new(
+        format!("c21|destination|{mode_name}"),
+        format!("inscription {i} reported for {} but sits on script {:?}; {}", reported_destination, located_script, context()),
+      ));
+    }
+    match &wanted_destinations[i] {
+      Some(script) => {
+        if script != &reported_destination.script_pubkey() {
+          return cx.fail(Fail::new(
+            format!("c21|requested-destination|{mode_name}"),
+            format!("inscription {i} was to go to {script:?} but went to {reported_destination}; {}", context()),
+          ));
+        }
+      }
+      None => {
+        if !env.is_wallet_script(&reported_destination.script_pubkey()) {
+          return cx.fail(Fail::new(
+            format!("c21|default-destination|{mode_name}"),
+            format!("inscription {i} without destination went to non-wallet address {reported_destination}; {}", context()),
+          ));
+        }
+      }
+    }
+    let mut indexed_parents = indexed.parents.clone();
+    indexed_parents.sort();
+    let mut wanted_parents: Vec<ord::InscriptionId> = parents.iter().map(|(_, id)| *id).collect();
+    wanted_parents.sort();
+    if indexed_parents != wanted_parents {
+      return cx.fail(Fail::new(
+        format!("c21|parents|{mode_name}"),
+        format!("inscription {i} has parents {indexed_parents:?}, batch named {wanted_parents:?}; {}", context()),
+      ));
+    }
+    let recursive: ord::api::InscriptionRecursive = env
+      .server
+      .json(&format!("/r/inscription/{}", info.id))
+      .map_err(harness("recursive json"))?;
+    if recursive.delegate != wanted_delegates[i] {
+      return cx.fail(Fail::new(
+        format!("c21|delegate|{mode_name}"),
+        format!("inscription {i} has delegate {:?}, batch named {:?}; {}", recursive.delegate, wanted_delegates[i], context()),
+      ));
+    }
+    if wanted_delegates[i].is_none() && !case.compress {
+      if let Some(body) = &wanted_bodies[i] {
+        let content = env
+          .server
+          .get(&format!("/content/{}", info.id), None, false)
+          .map_err(harness("content"))?;
+        if !(body.is_empty() && content.status == 404) && &content.body != body {
+          return cx.fail(Fail::new(
+            format!("c21|content|{mode_name}"),
+            format!("inscription {i} content differs from its file ({} vs {} bytes, status {}); {}", content.body.len(), body.len(), content.status, context()),
+          ));
+        }
+      }
+    }
+    if mode == 3 {
+      // the inscription is on the first sat of the output it asked for
+      let wanted_input = satpoint_outputs[i];
+      if !reveal_tx.input.iter().any(|input| input.previous_output == wanted_input) {
+        return cx.fail(Fail::new(
+          "c21|satpoint-not-spent",
+          format!("entry {i} asked for satpoint {wanted_input}:0 but the reveal does not spend it; {}", context()),
+        ));
+      }
+    }
+  }
+  // nothing beyond what was reported
+  let extra = env
+    .server
+    .get(&format!("/inscription/{}i{}", report.reveal, report.inscriptions.len()), None, true)
+    .map_err(harness("get extra"))?;
+  if extra.status == 200 {
+    return cx.fail(Fail::new(
+      "c21|unreported-inscription",
+      format!("the reveal created more inscriptions than reported; {}", context()),
+    ));
+  }
+
+  // (b) parents are back in the wallet
+  let reported_parents: BTreeSet<_> = report.parents.iter().copied().collect();
+  if reported_parents != parents.iter().map(|(_, id)| *id).collect::<BTreeSet<_>>() {
+    return cx.fail(Fail::new("c21|reported-parents", format!("reported parents {:?} differ from the batch's; {}", report.parents, context())));
+  }
+  for (_, id) in &parents {
+    let indexed: ord::api::Inscription = env.server.json(&format!("/inscription/{id}")).map_err(harness("parent json"))?;
+    let script = env.tx_out(&indexed.satpoint.outpoint).map(|o| o.script_pubkey);
+    let in_wallet = script.as_ref().map(|s| env.is_wallet_script(s)).unwrap_or(false);
+    if !in_wallet || indexed.satpoint.outpoint.txid != report.reveal {
+      return cx.fail(Fail::new(
+        format!("c21|parent-not-returned|{mode_name}"),
+        format!("parent {id} is at {} (script {:?}) after the batch, not on a wallet output of the reveal; {}", indexed.satpoint, script, context()),
+      ));
+    }
+  }
+
+  // (d) the etching
+  if let Some((spaced, premine, divisibility, terms, turbo)) = etching_request {
+    let response = env.server.get(&format!("/rune/{}", spaced.rune), None, true).map_err(harness("get rune"))?;
+    if response.status != 200 {
+      return cx.fail(Fail::new(
+        "c21|rune-not-etched",
+        format!("the batch's rune {spaced} does not exist after the reveal was mined (status {}); {}", response.status, context()),
+      ));
+    }
+    let rune: ord::api::Rune = serde_json::from_slice(&response.body).map_err(harness("rune json"))?;
+    let entry = &rune.entry;
+    let indexed_terms = entry.terms.map(|t| (t.amount.unwrap_or(0), t.cap.unwrap_or(0)));
+    if entry.spaced_rune != spaced
+      || entry.premine != premine
+      || entry.divisibility != divisibility
+      || entry.etching != report.reveal
+      || entry.turbo != turbo
+      || indexed_terms != terms
+      || entry.symbol != Some('$')
+    {
+      return cx.fail(Fail::new(
+        "c21|rune-entry",
+        format!("rune entry {entry:?} differs from the batch's etching ({spaced}, premine {premine}, divisibility {divisibility}, terms {terms:?}, turbo {turbo}); {}", context()),
+      ));
+    }
+    let Some(info) = &report.rune else {
+      return cx.fail(Fail::new("c21|rune-not-reported", format!("etching not reported; {}", context())));
+    };
+    if info.rune != spaced {
+      return cx.fail(Fail::new("c21|rune-name", format!("reported rune {} differs from {spaced}; {}", info.rune, context())));
+    }
+    if premine > 0 {
+      let (Some(location), Some(destination)) = (info.location, info.destination.clone()) else {
+        return cx.fail(Fail::new("c21|premine-location-missing", format!("premine without reported location; {}", context())));
+      };
+      let state = env.output_state(&location).map_err(harness("premine output"))?;
+      if state.runes.get(&spaced.rune).copied() != Some(premine) || state.runes.len() != 1 {
+        return cx.fail(Fail::new(
+          "c21|premine-location",
+          format!("premine {premine} reported at {location} but that output holds {:?}; {}", state.runes, context()),
+        ));
+      }
+      let script = env.tx_out(&location).map(|o| o.script_pubkey);
+      let destination = destination.assume_checked();
+      if script.as_ref() != Some(&destination.script_pubkey()) || !env.is_wallet_script(&destination.script_pubkey()) {
+        return cx.fail(Fail::new(
+          "c21|premine-destination",
+          format!("premine destination {destination} is not the wallet-owned script of {location}; {}", context()),
+        ));
+      }
+      cx.label("etching-with-premine");
+    } else {
+      if info.location.is_some() {
+        return cx.fail(Fail::new("c21|premine-location-spurious", format!("no premine but a location was reported; {}", context())));
+      }
+      cx.label("etching-without-premine");
+    }
+    // the first inscription carries the rune
+    let first: ord::api::Inscription = env
+      .server
+      .json(&format!("/inscription/{}", report.inscriptions[0].id))
+      .map_err(harness("first json"))?;
+    if first.rune != Some(spaced) {
+      return cx.fail(Fail::new(
+        "c21|rune-parent-inscription",
+        format!("first inscription's rune is {:?}, expected {spaced}; {}", first.rune, context()),
+      ));
+    }
+  }
+
+  cx.label("audited");
+  cx.label(&format!("audited:{mode_name}"));
+  if !parents.is_empty() {
+    cx.label("with-parents");
+  }
+  if reinscribing {
+    cx.label("reinscribe");
+  }
+  if mode == 2 && case.same_sat_target == 1 {
+    cx.label("same-sat-explicit-satpoint");
+  }
+  if wanted_delegates.iter().any(|d| d.is_some()) {
+    cx.label("with-delegate");
+  }
+  if case.postage.is_some() && mode != 3 {
+    cx.label("with-postage");
+  }
+  if case.entries.len() > 1 {
+    cx.label("several-inscriptions");
+  }
+  if wanted_destinations.iter().any(|d| d.is_some()) {
+    cx.label("with-destinations");
+  }
+  if case.entries.len() > 1 || !parents.is_empty() || case.etching.is_some() {
+    cx.nontrivial(fingerprint(case));
+  }
+  cx.sample(6, || {
+    json!({
+      "mode": mode_name,
+      "inscriptions": report.inscriptions.iter().map(|i| format!("{} at {}", i.id, i.location)).collect::<Vec<_>>(),
+      "parents": report.parents.len(),
+      "rune": report.rune.as_ref().map(|r| r.rune.to_string()),
+    })
+  });
+  Ok(())
+}
+
+pub fn c21(s: &mut Session) -> Meta {
+  let t = s.tier();
+  s.run_part(Part::new("batches", t.pick(200, 3000), batch_case, c21_check).shrink_iters(60).timeout(600));
+  Meta {
+    level: "exploration",
+    rule: "Each case builds a wallet on the mock node (6..9 cardinal outputs, three singly inscribed outputs usable as parents or reinscription targets, a doubly inscribed output, two runic outputs, a foreign inscription as delegate target) and runs the real `ord wallet batch --batch batch.yaml` (subprocess, live server; for etchings the harness mines the six maturation blocks while the command waits) on a generated batch file: mode separate-outputs / shared-output / same-sat / satpoints; 1..5 inscriptions with files of 0..599 bytes and four media types, optional metadata, metaprotocol, delegate (with or without a file), per-inscription destinations, per-inscription satpoints; 0..2 parents; optional postage; same-sat with an explicit satpoint or reinscribing an inscribed sat; optional etching (divisibility 0..38, premine 0..u64::MAX, optional terms with offset/height ranges, turbo, spacers); fee rates 0..4, optional commit fee rate, --compress, some --dry-run. Oracle after mining commit and reveal: every reported inscription id exists in the index at exactly the reported satpoint, on an output paying the reported destination (the requested one, or a wallet address), with exactly the batch's parents and delegate and the file's content; the reveal created no further inscription; every parent sits on a wallet-owned output of the reveal; the commit transaction (mock mempool) spends no inscribed or runic wallet output other than the sat being reinscribed; an etching exists under the requested name with the requested premine, divisibility, terms, turbo and symbol, its premine is the only balance of the reported wallet-owned output, and the first inscription is the rune's parent. Non-trivial = an audited batch with more than one inscription, parents or an etching; distinct by case.",
+    assumptions: &[
+      "`sat:` targets need a sat index and are not generated (the wallet test bed runs without --index-sats)",
+      "metadata and gallery contents are not compared",
+    ],
+    required_labels: &[
+      "audited:separate-outputs",
+      "audited:shared-output",
+      "audited:same-sat",
+      "audited:satpoints",
+      "with-parents",
+      "reinscribe",
+      "with-delegate",
+      "with-postage",
+      "with-destinations",
+      "etching-with-premine",
+      "etching-without-premine",
+      "several-inscriptions",
+    ],
+  }
+}
